@@ -64,10 +64,15 @@ func checkAccessors(w *World, c *Check, rule string, methods []string) {
 			}
 			// kind predicates
 			allConst := true
+			consts := map[string]bool{}
 			for _, sv := range sum {
 				if sv.kind != "const" {
 					allConst = false
 				}
+				consts[sv.desc] = true
+			}
+			if len(consts) > 1 {
+				allConst = false // true on some paths and false on others: decided by the value
 			}
 			if !allConst {
 				// expressed through its sibling predicates (!t.IsCollection()): decided by constant evaluation
@@ -405,7 +410,20 @@ func symReturns(pr *prover, fn *ssa.Function, depth int, busy map[*ssa.Function]
 			}
 			if call, ok := leaf.(*ssa.Call); ok {
 				if cal := call.Common().StaticCallee(); cal != nil && cal.Pkg == fn.Pkg {
-					for _, sv := range symReturns(pr, cal, depth+1, busy) {
+					calSum := symReturns(pr, cal, depth+1, busy)
+					// a callee that answers with different constants on different paths (a table lookup returning
+					// true / false) does not return "a constant": which one depends on its arguments
+					distinct := map[string]bool{}
+					for _, sv := range calSum {
+						if sv.kind == "const" {
+							distinct[sv.desc] = true
+						}
+					}
+					if len(distinct) > 1 {
+						res = append(res, retSym{kind: "other", desc: "the result of " + funcName(cal)})
+						continue
+					}
+					for _, sv := range calSum {
 						switch sv.kind {
 						case "const":
 							res = append(res, sv)
